@@ -368,7 +368,11 @@ class _SearchIndexer(dict):
             # searches for a integer-valued float and hopes to find ints.
             # This way, both `signac find x 4.0` and `signac find x 4` would
             # return jobs where `sp.x` is stored as either 4.0 or 4.
-            if isinstance(value, Number) and float(value).is_integer():
+            if (
+                isinstance(value, Number)
+                and float(value) == value
+                and float(value).is_integer()
+            ):
                 result_float = index.get(_float(value), set())
                 result_int = index.get(int(value), set())
                 return result_int.union(result_float)
